@@ -897,6 +897,11 @@ where
         println!("{}: {} violation(s) in total", run.prop, real_count);
         return 1;
     }
+    if let Some(m) = st.caps_hit.iter().find(|c| c.starts_with("MACHINERY")) {
+        // part of the exploration could not be carried out: no verdict
+        println!("MACHINERY-ERROR property={} {}", run.prop, m);
+        return 2;
+    }
     println!("{}: OK", run.prop);
     0
 }
